@@ -16,7 +16,8 @@ TRUSTED = ['forwarding output / ParentInput alias modelled as direct bindings to
 ASSUMPTIONS = ['all ports TS[int]; REF-shaped boundaries are part of C13'] + list(shp.ASSUMPTIONS)
 TECHNIQUE = 'Lean 4 proof of the nested scheduling invariants (clamp, child never ahead of parent) and of nested = inlined for flat dataflow sub-graphs at every depth of a chain (lock-step simulation of the child cycle with the child stretch of the inlined scan, induction over the nesting tree) + differential correspondence + nested-vs-inlined reference monitor'
 LEVEL_TEXT = ("Kernel-checked: an out-of-band schedule on an idle child is clamped to the parent's current time and reaches the parent node no later than that time; a child is never evaluated ahead of its parent. NESTED = INLINED for flat dataflow sub-graphs (Props/C09Flow.lean): for every flat dataflow F with arbitrary node functions (frame condition, self-requests in the future), every nesting tree over F of any depth (each graph run by the generic scan of graph.cpp, the nested node = child cycle + propagate_nested_parent_schedule, boundary writes through nested_schedule_node_impl with its clamp, child-output writes delivered to the outer consumers) and every topological rank of the inlined flow, from corresponding idle states after start: one cycle leaves every node in the same state with the same user-code runs, the same writers and corresponding schedule slots / next time (nested_cycle_eq_inlined), and whole simulation runs have the same cycle times, the same final state of every node and the same ok flag (nested_run_eq_inlined = nested_sim_inlined_flow); two nestings of one dataflow agree (nested_depth_irrelevant_flow). The executable model of nested start / evaluate / pull-propagate / push path is compared trace-for-trace with the runtime, and for every generated definition the nested and the inlined wiring must produce identical sink streams (monitor)."
-              " Structured results and implicit captures (Props/C09Shape.lean, Props/C09Capture.lean, stream nestshape): for the forwarding-tree binder as coded, every leaf of a structured result is bound after start, the outer delta of a cycle equals the body's delta and the outer value the body's value at every depth (nested_delta_eq_inlined_delta, nested_depth_irrelevant), nothing ticks outside without a body tick; the outer-capture table maps two references to one slot iff they are the same port and binds each captured body input to exactly that outer port through any number of levels (capture_slots_injective_on_ports, captured_binding_through_levels); the known finding C09-composed and the seeded short-circuit / node-keyed table are kept as kernel-checked counter-witnesses.")
+              " Structured results and implicit captures (Props/C09Shape.lean, Props/C09Capture.lean, stream nestshape): for the forwarding-tree binder as coded, every leaf of a structured result is bound after start, the outer delta of a cycle equals the body's delta and the outer value the body's value at every depth (nested_delta_eq_inlined_delta, nested_depth_irrelevant), nothing ticks outside without a body tick; the outer-capture table maps two references to one slot iff they are the same port and binds each captured body input to exactly that outer port through any number of levels (capture_slots_injective_on_ports, captured_binding_through_levels); the known finding C09-composed and the seeded short-circuit / node-keyed table are kept as kernel-checked counter-witnesses."
+              ' Child interning of boundary sources (Props/C09BoundaryKey.lean): two body nodes of a compiled child wiring are merged iff they have the same definition, scalars and sources INCLUDING the projection path of a declared or captured boundary argument (merged_iff_same_def_scalars_sources), and every request is served by a node with exactly its own inputs; the path-less key variant provably merges twins on two elements of one parameter.')
 LEVEL_NOTE = 'Trusted: Lean kernel; model tied by correspondence. The run-level theorem covers chains of nested flat dataflows from corresponding states AFTER start (start-time sampling is where the known finding F2 lives; Corr fails at time 0 there and nothing is claimed); not covered by proof, only by the nested-vs-inlined monitor on generated programs: several nested nodes in one graph, map_/switch_/try_except children, failing nodes, structured boundaries beyond the forwarding-binder theorems, the push-source prefix.'
 
 
